@@ -8,6 +8,7 @@ import (
 	"encoding/binary"
 	"fmt"
 	"math"
+	"math/big"
 	"math/rand/v2"
 	"os"
 	"os/exec"
@@ -87,6 +88,26 @@ var c09KeyPool = sync.OnceValue(func() []crypto.PublicKey {
 	}
 	return out
 })
+
+// c09ManyKeys returns n distinct BLS public keys (k*g2 for k = 1..n as successive sums: cheap to build,
+// grown on demand, built once per process).
+var (
+	manyKeysMu sync.Mutex
+	manyKeys   []crypto.PublicKey
+)
+
+func c09ManyKeys(n int) []crypto.PublicKey {
+	manyKeysMu.Lock()
+	defer manyKeysMu.Unlock()
+	for len(manyKeys) < n {
+		sk, err := crypto.DecodePrivateKey(crypto.BLSBLS12381, big.NewInt(int64(len(manyKeys)+12345)).FillBytes(make([]byte, 32)))
+		if err != nil {
+			panic(err)
+		}
+		manyKeys = append(manyKeys, sk.PublicKey())
+	}
+	return manyKeys[:n]
+}
 
 // bv returns a byte-slice variant around the target length L.
 func bv(r *rand.Rand, L int, valid []byte) ([]byte, string) {
@@ -559,6 +580,78 @@ func c09Families() []c09family {
 					}
 					if _, err := crypto.VerifyBLSSignatureOneMessage(pks, fx.blsSig, fx.msg, fx.kmac); err != nil {
 						return bad("VerifyBLSSignatureOneMessage", desc, err.Error())
+					}
+					return ""
+				}}
+			}
+		}},
+		// very long well-formed lists (tens of thousands of DISTINCT keys and messages in the plain build,
+		// thousands under the sanitizers): stack use, recursion depth and scratch space that grow with the
+		// list length must stay within what the process has
+		{"huge-lists", fixedN(5, 12), func(r *rand.Rand, i int) c09cmd {
+			n := []int{30000, 12000, 30000, 20000, 30000, 50000, 50000, 8000, 50000, 40000, 50000, 60000}[i%12]
+			if b := os.Getenv("VERIF_C09_BUILD"); b != "" && b != "plain" {
+				n /= 10
+			}
+			desc := fmt.Sprintf("well-formed lists of %d distinct entries", n)
+			keys := c09ManyKeys(n)
+			switch i % 5 {
+			case 0:
+				return c09cmd{"VerifyBLSSignatureManyMessages", desc + " (distinct keys, distinct messages)", func() string {
+					msgs, hs := make([][]byte, n), make([]hash.Hasher, n)
+					for j := range msgs {
+						msgs[j], hs[j] = []byte(fmt.Sprintf("huge-%d", j)), fx.kmac
+					}
+					if _, err := crypto.VerifyBLSSignatureManyMessages(keys, fx.blsSig, msgs, hs); err != nil {
+						return bad("VerifyBLSSignatureManyMessages", desc, err.Error())
+					}
+					return ""
+				}}
+			case 1:
+				return c09cmd{"AggregateBLSSignatures", desc, func() string {
+					sigs := make([]crypto.Signature, n)
+					for j := range sigs {
+						sigs[j] = fx.blsSig
+					}
+					if _, err := crypto.AggregateBLSSignatures(sigs); err != nil {
+						return bad("AggregateBLSSignatures", desc, err.Error())
+					}
+					return ""
+				}}
+			case 2:
+				return c09cmd{"AggregateBLSPublicKeys+Remove+OneMessage", desc, func() string {
+					agg, err := crypto.AggregateBLSPublicKeys(keys)
+					if err != nil {
+						return bad("AggregateBLSPublicKeys", desc, err.Error())
+					}
+					if _, err := crypto.RemoveBLSPublicKeys(agg, keys[:n/2]); err != nil {
+						return bad("RemoveBLSPublicKeys", desc, err.Error())
+					}
+					if _, err := crypto.VerifyBLSSignatureOneMessage(keys, fx.blsSig, fx.msg, fx.kmac); err != nil {
+						return bad("VerifyBLSSignatureOneMessage", desc, err.Error())
+					}
+					return ""
+				}}
+			case 3:
+				return c09cmd{"VerifyBLSSignatureManyMessages", desc + " (distinct keys, one message)", func() string {
+					msgs, hs := make([][]byte, n), make([]hash.Hasher, n)
+					for j := range msgs {
+						msgs[j], hs[j] = fx.msg, fx.kmac
+					}
+					if _, err := crypto.VerifyBLSSignatureManyMessages(keys, fx.blsSig, msgs, hs); err != nil {
+						return bad("VerifyBLSSignatureManyMessages", desc, err.Error())
+					}
+					return ""
+				}}
+			default:
+				m := n / 10
+				return c09cmd{"BatchVerifyBLSSignaturesOneMessage", fmt.Sprintf("well-formed lists of %d entries", m), func() string {
+					sigs := make([]crypto.Signature, m)
+					for j := range sigs {
+						sigs[j] = fx.blsSig
+					}
+					if _, err := crypto.BatchVerifyBLSSignaturesOneMessage(keys[:m], sigs, fx.msg, fx.kmac); err != nil {
+						return bad("BatchVerifyBLSSignaturesOneMessage", desc, err.Error())
 					}
 					return ""
 				}}
@@ -1184,7 +1277,7 @@ func c09Supervise(run *mon.Run, bin, label string, plan *c09plan, extraEnv ...st
 				_ = os.Remove(out)
 				ctx, cancel := context.WithTimeout(context.Background(), 45*time.Minute)
 				cmd := exec.CommandContext(ctx, bin, "c09child", run.Tier, strconv.Itoa(from), strconv.Itoa(to), prog, out, strconv.Itoa(shards))
-				cmd.Env = append(append(os.Environ(), extraEnv...), fmt.Sprintf("VERIF_SEED=%d", run.Seed))
+				cmd.Env = append(append(os.Environ(), extraEnv...), fmt.Sprintf("VERIF_SEED=%d", run.Seed), "VERIF_C09_BUILD="+label)
 				lf, _ := os.Create(logf)
 				cmd.Stdout, cmd.Stderr = lf, lf
 				// hang detection: the progress index must move
